@@ -15,7 +15,7 @@ Q = lambda *a: list(a)
 
 PROPS = {
     "C16": {
-        "groups": [{"run": "^vpH_C16_", "quick": [], "thorough": ["-timeout-ms", "60000"]}],
+        "groups": [{"run": "^vpH_C16_", "args": ["-solver", "z3-new", "-timeout-ms", "30000"], "quick": [], "thorough": ["-timeout-ms", "60000"]}],
         "bounds": {"quick": "every ElectionConfig field symbolic; durations within +/-1 year (so 3*H and 2*H cannot wrap); Priority and MaxConsecutiveFailures within +/-10^6; strings arbitrary (equality with \"\" only); single call of NewElection, no loops"},
         "outside": "durations beyond one year (64-bit wrap of 3*H); Logger/Metrics/HealthChecker fields are nil",
         "assumptions": ["provider stub records whether JetStream()/KeyValue() were called"],
